@@ -194,7 +194,22 @@ def run_property(pid, tier, seed, args):
         solve._PREPARE[i] = (lambda ob=ob: obligation_smt(ob) + (True,))
         tasks.append(solve.Task(i, None))
     t_solve = time.time()
-    results = solve.discharge_all(tasks, timeout_s=timeout)
+    results = solve.discharge_all(tasks, timeout_s=timeout, second=False)
+    # an obligation that got no answer (solver timeout, a worker that died) is tried again on a quiet machine with
+    # twice the budget before anything is concluded from it: verdicts must not depend on the load
+    again = [t for t in tasks if results[t.key]['status'] in ('unknown', 'error')]
+    if again:
+        log('retrying %d obligations that got no answer (%s)' % (len(again), sorted({results[t.key]['status'] for t in again})))
+        for t in again:
+            t.smt2 = t.smt2 if t.smt2 else None
+        res2 = solve.discharge_all(again, timeout_s=timeout * 2, jobs=8)       # other back ends are asked here
+        for t in again:
+            first = results[t.key]
+            results[t.key] = dict(res2[t.key], retried={'status': first['status'], 'reason': first.get('reason')})
+    broken = [obligations[t.key].name for t in tasks if results[t.key]['status'] == 'error']
+    if broken:
+        log('CHECK-ERROR property=%s solver workers failed twice on: %s' % (pid, ', '.join(broken[:5])))
+        return 3
     solve_wall = time.time() - t_solve
 
     # ---- canaries: assumptions /\ goal must be satisfiable for every final (post) obligation ----------
